@@ -4,6 +4,7 @@ import (
 	"fmt"
 	"go/token"
 	"go/types"
+	"sort"
 	"strconv"
 	"strings"
 
@@ -158,6 +159,14 @@ func (f *Frame) enterBlock(b *ssa.BasicBlock) *cursor {
 			}
 		}
 	}
+	owned := f.loopOwned(li)
+	for _, a := range owned {
+		if f.published == nil {
+			f.published = map[ssa.Value]bool{}
+		}
+		f.published[a] = true
+		f.checkOwnInv(st, reach, a, b.Instrs[0], "holds on loop entry for the object the loop hands on")
+	}
 	// 2. havoc
 	hst := st.clone()
 	if li.privAll {
@@ -193,6 +202,12 @@ func (f *Frame) enterBlock(b *ssa.BasicBlock) *cursor {
 			c.reach = and(c.reach, t)
 		}
 	}
+	for _, a := range owned {
+		_, _, ts := f.ownInvTerms(hst, a)
+		for _, t := range ts {
+			c.reach = and(c.reach, t)
+		}
+	}
 	// built-in facts: values defined before the loop are unchanged (they are SSA), allocation grows
 	c.reach = e.define(fmt.Sprintf("%sr.h%d", f.pfx, b.Index), c.reach)
 	return c
@@ -225,6 +240,13 @@ func (f *Frame) closeBackEdge(c *cursor, from, h *ssa.BasicBlock, cond Term) {
 			if o := e.addOblig("inv-step", inv.Name, f.invProps(inv), e.P.position(h.Instrs[0].Pos()), reach, t); o != nil && inv.Gen != nil {
 				o.auto = inv
 			}
+		}
+	}
+	for _, a := range f.loopOwned(li) {
+		// only this activation's own stores can have broken it: callees
+		// re-establish the invariant of every object they store into (K7)
+		if n, ok := a.Type().(*types.Pointer).Elem().(*types.Named); ok && f.dirty[n.Obj().Pkg().Name()+"."+n.Obj().Name()] {
+			f.checkOwnInv(c.st, reach, a, h.Instrs[0], "holds again at the loop's back edge")
 		}
 	}
 	for _, dec := range f.loopVariants(li) {
@@ -300,6 +322,7 @@ func (f *Frame) exec(c *cursor, in ssa.Instruction) bool {
 	case *ssa.Return:
 		var rs []Term
 		for _, r := range x.Results {
+			f.publish(c, r, x)
 			rs = append(rs, f.val(r))
 		}
 		f.rets = append(f.rets, retPoint{c.reach, rs, c.st.clone(), x})
@@ -322,6 +345,9 @@ func (f *Frame) exec(c *cursor, in ssa.Instruction) bool {
 		f.deferSt = append(f.deferSt, deferRec{x, c.reach, args})
 		return false
 	case *ssa.Go:
+		for _, a := range x.Call.Args {
+			f.publish(c, a, x)
+		}
 		return false
 	case *ssa.Send:
 		return false
@@ -370,6 +396,9 @@ func (f *Frame) exec(c *cursor, in ssa.Instruction) bool {
 	case *ssa.Phi:
 		return false
 	case *ssa.Call:
+		for _, a := range x.Call.Args {
+			f.publish(c, a, x)
+		}
 		f.execCall(c, x)
 		return false
 	case *ssa.ChangeInterface:
@@ -382,10 +411,33 @@ func (f *Frame) exec(c *cursor, in ssa.Instruction) bool {
 		f.execConvert(c, x)
 		return false
 	case *ssa.MakeInterface:
+		f.publish(c, x.X, x)
 		f.setVal(x, f.makeIface(f.val(x.X), x.X.Type()))
 		return false
 	case *ssa.MakeClosure:
 		fn := x.Fn.(*ssa.Function)
+		// a bound method value (l.lexIf) will be called by whoever receives it: its
+		// precondition is checked here, where it is made (action protocol of the lexers)
+		if tgt := boundMethodTarget(fn); tgt != nil && len(x.Bindings) == 1 {
+			if sp := e.P.specFor(tgt); sp != nil && len(sp.Requires) > 0 && len(tgt.Params) >= 1 {
+				env := &SpecEnv{f: f, names: map[string]Term{tgt.Params[0].Name(): f.val(x.Bindings[0])}, types: map[string]types.Type{tgt.Params[0].Name(): tgt.Params[0].Type()}, cur: st, old: st}
+				if tgt.Pkg != nil {
+					env.pkg = tgt.Pkg.Pkg
+				}
+				for _, r := range sp.Requires {
+					if len(tgt.Params) > 1 && mentionsParams(r.Expr, tgt.Params[1:]) {
+						continue // depends on arguments supplied at the call
+					}
+					t, err := env.evalBool(r.Expr)
+					if err != nil {
+						e.specError("requires of %s: %v", funcKey(tgt), err)
+						continue
+					}
+					_, pos := f.obligName("call", x)
+					e.addOblig("requires", fmt.Sprintf("%s (as a method value): %s", funcKey(tgt), r.Text), unionProps(r.Props, f.props), pos, c.reach, t)
+				}
+			}
+		}
 		cv := &closureVal{fn: fn, bindings: x.Bindings, frame: f}
 		f.closures[x] = cv
 		// closure values are distinct positive identities, so that a func value
@@ -554,6 +606,7 @@ func (f *Frame) execStore(c *cursor, x *ssa.Store) {
 	e := f.e
 	st := c.st
 	vt := x.Val.Type()
+	f.publish(c, x.Val, x)
 	if base, ok := f.privBase(x.Addr); ok {
 		stt := vt.Underlying().(*types.Struct)
 		d := e.U.structDT(vt)
@@ -584,6 +637,26 @@ func (f *Frame) execStore(c *cursor, x *ssa.Store) {
 			fam := memFam(es)
 			e.setFamily(st, fam, store(e.family(st, fam, memSort(es)), f.val(x.Addr), f.val(x.Val)))
 			return
+		}
+	}
+	if fa, ok := x.Addr.(*ssa.FieldAddr); ok {
+		relevant := false // does a declared invariant of the type mention the stored field?
+		if n, ok := fa.X.Type().Underlying().(*types.Pointer).Elem().(*types.Named); ok && n.Obj().Pkg() != nil {
+			key := n.Obj().Pkg().Name() + "." + n.Obj().Name()
+			fname := n.Underlying().(*types.Struct).Field(fa.Field).Name()
+			relevant = e.P.Specs.invFields(key)[fname]
+			if _, isAlloc := fa.X.(*ssa.Alloc); !isAlloc && relevant {
+				if f.dirty == nil {
+					f.dirty = map[string]bool{}
+				}
+				f.dirty[key] = true
+			}
+		}
+		if _, isLv := f.lvals[fa.X]; !isLv && relevant {
+			_, constructing := fa.X.(*ssa.Alloc) // initialising a fresh object: checked when it escapes
+			if _, priv := f.privBase(fa.X); !priv && !constructing {
+				e.touch(f.val(fa.X), fa.X.Type(), "field "+fa.X.Type().Underlying().(*types.Pointer).Elem().Underlying().(*types.Struct).Field(fa.Field).Name()+" stored")
+			}
 		}
 	}
 	lv := f.lvalOf(x.Addr, st)
@@ -1364,3 +1437,145 @@ func (f *Frame) callOrdinal(in ssa.Instruction, callee string) int {
 	}
 	return -1
 }
+
+// boundMethodTarget: the method a "bound method wrapper" closure calls.
+func boundMethodTarget(fn *ssa.Function) *ssa.Function {
+	if !strings.Contains(fn.Synthetic, "bound method wrapper") {
+		return nil
+	}
+	for _, b := range fn.Blocks {
+		for _, in := range b.Instrs {
+			if c, ok := in.(*ssa.Call); ok {
+				if t := c.Call.StaticCallee(); t != nil {
+					return t
+				}
+			}
+		}
+	}
+	return nil
+}
+
+func mentionsParams(x *SExpr, ps []*ssa.Parameter) bool {
+	if x == nil {
+		return false
+	}
+	if x.Op == "ident" {
+		for _, p := range ps {
+			if p.Name() == x.Name {
+				return true
+			}
+		}
+	}
+	for _, a := range x.Args {
+		if mentionsParams(a, ps) {
+			return true
+		}
+	}
+	return false
+}
+
+// publish: a reference to an object this activation allocated is about to
+// become reachable by others (stored, boxed, appended, passed, returned): its
+// type invariant must hold now (K7).
+func (f *Frame) publish(c *cursor, v ssa.Value, in ssa.Instruction) {
+	e := f.e
+	a, ok := v.(*ssa.Alloc)
+	if !ok || a.Parent() != f.fn {
+		return
+	}
+	_, stT, isPtr := isStructPtr(a.Type())
+	if !isPtr {
+		return
+	}
+	n, isNamed := stT.(*types.Named)
+	if !isNamed || n.Obj().Pkg() == nil {
+		return
+	}
+	key := n.Obj().Pkg().Name() + "." + n.Obj().Name()
+	invs := e.P.Specs.TypeInvs[key]
+	if len(invs) == 0 {
+		return
+	}
+	if f.published == nil {
+		f.published = map[ssa.Value]bool{}
+	}
+	if f.published[v] {
+		return
+	}
+	f.published[v] = true
+	f.checkOwnInv(c.st, c.reach, a, in, "established before the new object escapes")
+}
+
+// ownInvTerms evaluates the declared invariants of the object allocated by a
+// in state st.
+func (f *Frame) ownInvTerms(st *State, a *ssa.Alloc) (key string, texts []string, ts []Term) {
+	e := f.e
+	_, stT, isPtr := isStructPtr(a.Type())
+	if !isPtr {
+		return
+	}
+	n, isNamed := stT.(*types.Named)
+	if !isNamed || n.Obj().Pkg() == nil {
+		return
+	}
+	key = n.Obj().Pkg().Name() + "." + n.Obj().Name()
+	ref, ok := f.vals[a]
+	if !ok {
+		return
+	}
+	for _, inv := range e.P.Specs.TypeInvs[key] {
+		env := &SpecEnv{f: f, names: map[string]Term{"self": ref}, types: map[string]types.Type{"self": a.Type()}, cur: st, old: st, pkg: n.Obj().Pkg()}
+		f.noInv = true
+		t, err := env.evalBool(inv.Expr)
+		f.noInv = false
+		if err != nil {
+			e.specError("wf %s: %v", key, err)
+			continue
+		}
+		texts = append(texts, inv.Text)
+		ts = append(ts, t)
+	}
+	return
+}
+
+func (f *Frame) checkOwnInv(st *State, reach Term, a *ssa.Alloc, in ssa.Instruction, what string) {
+	key, texts, ts := f.ownInvTerms(st, a)
+	for i, t := range ts {
+		_, pos := f.obligName("wf", in)
+		name := fmt.Sprintf("%s %s: %s", key, what, texts[i])
+		if f.depth > 0 {
+			name += "@" + f.fn.Name()
+		}
+		f.e.addOblig("wf", name, f.props, pos, reach, t)
+	}
+}
+
+// loopOwned: objects this activation allocated before the loop, with a
+// declared invariant, that the loop body hands to other code.  Their invariant
+// is an implicit loop invariant: established on entry, re-established at every
+// back edge, assumed at the head.
+func (f *Frame) loopOwned(li *loopInfo) []*ssa.Alloc {
+	var out []*ssa.Alloc
+	seen := map[*ssa.Alloc]bool{}
+	for b := range li.body {
+		for _, in := range b.Instrs {
+			for _, op := range in.Operands(nil) {
+				a, ok := (*op).(*ssa.Alloc)
+				if !ok || seen[a] || a.Parent() != f.fn || li.body[a.Block()] {
+					continue
+				}
+				seen[a] = true
+				if _, stT, isPtr := isStructPtr(a.Type()); isPtr {
+					if n, ok := stT.(*types.Named); ok && n.Obj().Pkg() != nil && len(f.e.P.Specs.TypeInvs[n.Obj().Pkg().Name()+"."+n.Obj().Name()]) > 0 {
+						if _, have := f.vals[a]; have {
+							out = append(out, a)
+						}
+					}
+				}
+			}
+		}
+	}
+	sort.Slice(out, func(i, j int) bool { return out[i].Pos() < out[j].Pos() })
+	return out
+}
+
